@@ -359,3 +359,56 @@ package transport
 //@   assert at call AddInt32#1 lastret("LoadInt32") > 0 && arg1 == -sz
 //@   assert at return 1 result == nil && ncalls("AddInt32") == 1
 //@   assert at return 2 result == errStreamDone && ncalls("AddInt32") == 0
+
+// ---- C16: control-frame throttling ----------------------------------------------------------------
+//
+// transportResponseFrames counts the queued items that are responses to peer
+// frames (isThrottled). The throttle channel is installed exactly by the put that
+// takes the count to the limit, and closed and removed exactly by the get that
+// takes it back below the limit, so a reader blocked in throttle() waits only
+// while the limit is reached; finish() releases it as well. After close nothing
+// is queued and no callback runs.
+
+// the queue of items: operations touch only the list object (not verified here; C02's domain)
+//@ func (*itemList).enqueue
+//@   trusted
+//@   modifies il.*
+//@ func (*itemList).dequeue
+//@   trusted
+//@   modifies il.*
+//@ func (*itemList).dequeueAll
+//@   trusted
+//@   modifies il.*
+//@ func (*itemList).isEmpty
+//@   trusted
+
+//@ func (*controlBuffer).executeAndPut
+//@   prop C16
+//@   opt atomic mu
+//@   opt purecalls f
+//@   requires c != nil && c.list != nil
+//@   assert at return 1 old(c.closed) && !result0 && result1 == ErrConnClosing && ncalls("f") == 0 && ncalls("enqueue") == 0
+//@   assert at call f#1 !c.closed
+//@   assert at call enqueue#1 !c.closed && arg0 == c.list && arg1 == it && it != nil && c.transportResponseFrames == old(c.transportResponseFrames)
+//@   assert at call Store#1 it.isThrottled() && c.transportResponseFrames == maxQueuedControlBufferItems && c.transportResponseFrames == old(c.transportResponseFrames) + 1
+//@   assert at return 4 result0 && result1 == nil && ncalls("enqueue") == 1 && !c.consumerWaiting
+//@   assert at return 4 c.transportResponseFrames == old(c.transportResponseFrames) + ite(it.isThrottled(), 1, 0)
+//@   assert at return 4 (ncalls("Store") == 1) == (it.isThrottled() && c.transportResponseFrames == maxQueuedControlBufferItems)
+
+//@ func (*controlBuffer).getOnceLocked
+//@   prop C16
+//@   requires c != nil && c.list != nil
+//@   assert at return 1 c.closed && ncalls("dequeue") == 0
+//@   assert at call dequeue#1 !c.closed && arg0 == c.list
+//@   assert at call Swap#1 h.isThrottled() && c.transportResponseFrames == maxQueuedControlBufferItems && c.transportResponseFrames == old(c.transportResponseFrames) && arg1 == nil
+//@   assert at call close#1 ncalls("Swap") == 1
+//@   assert at return 3 c.transportResponseFrames == old(c.transportResponseFrames) - ite(h.isThrottled(), 1, 0)
+//@   assert at return 3 (ncalls("Swap") == 1) == (h.isThrottled() && old(c.transportResponseFrames) == maxQueuedControlBufferItems) && ncalls("close") == ncalls("Swap")
+
+//@ func (*controlBuffer).finish
+//@   prop C16
+//@   opt atomic mu
+//@   requires c != nil && c.list != nil
+//@   assert at return 1 old(c.closed) && ncalls("dequeueAll") == 0 && ncalls("Swap") == 0
+//@   assert at call dequeueAll#1 c.closed && !old(c.closed) && arg0 == c.list
+//@   assert at call Swap#1 arg1 == nil
